@@ -12,7 +12,13 @@ Inductive case :=
        DiskCache with max_size): only the values of the cached twin are observed *)
 | CMap (m : Run_C09Map.mcase).
 
-Definition body := Sym.body.
+(* user code: the structural function of harness/symfuncs.py, except that a function whose name starts with "nn"
+   returns Python's None (it logs its call like every other one; consumers print the value as `None`) - a cached
+   None must be told apart from a miss *)
+Definition returns_none (f : str) : bool :=
+  match f with a :: b :: _ => Ascii.eqb a "n"%char && Ascii.eqb b "n"%char | _ => false end.
+Definition body (f : str) (args : alist) : result str :=
+  if returns_none f then Ok none_val else Sym.body f args.
 Definition pick := Sym.pick.
 
 Definition sx_outcome (x : outcome) : sx :=
